@@ -179,8 +179,11 @@ def tlc(work, module, cfg, workers=None, timeout=3600, env=None, extra=None,
 def tlc_ok(res, what):
     """Raise MachineryError unless the TLC run completed without any error."""
     if res.rc != 0 or res.errors or res.violated:
-        tail = '\n'.join(res.out.splitlines()[-60:])
-        raise MachineryError('%s: TLC rc=%s errors=%s violated=%s\n%s'
+        os.makedirs(os.path.join(VERIF, 'out'), exist_ok=True)
+        with open(os.path.join(VERIF, 'out', 'last_tlc_error.log'), 'w') as f:
+            f.write(res.out)
+        tail = '\n'.join([ln for ln in res.out.splitlines() if not ln.startswith('  |') and not ln.startswith('"CASE')][-40:])
+        raise MachineryError('%s: TLC rc=%s errors=%s violated=%s (full log: out/last_tlc_error.log)\n%s'
                              % (what, res.rc, res.errors[:5], res.violated[:5], tail))
 
 
@@ -373,3 +376,37 @@ class Report(object):
             print(ln)
         sys.stdout.flush()
         return 1 if nviol else 0
+
+
+# --------------------------------------------------------------------------
+def tla(v):
+    """Python value -> TLA+ expression text (str, bool, int, list/tuple -> <<>>,
+    set/frozenset -> {}, dict -> record)."""
+    if isinstance(v, bool):
+        return 'TRUE' if v else 'FALSE'
+    if isinstance(v, int):
+        return str(v)
+    if isinstance(v, str):
+        return '"' + v.replace('\\', '\\\\').replace('"', '\\"') + '"'
+    if isinstance(v, (list, tuple)):
+        return '<<' + ', '.join(tla(x) for x in v) + '>>'
+    if isinstance(v, (set, frozenset)):
+        return '{' + ', '.join(sorted(tla(x) for x in v)) + '}'
+    if isinstance(v, dict):
+        return '[' + ', '.join('%s |-> %s' % (k, tla(x)) for k, x in sorted(v.items())) + ']'
+    raise TypeError(v)
+
+
+def gen_module(work, name, extends, defs):
+    """Write a generated root module `name` EXTENDS `extends` with definitions defs
+    (dict name -> python value or raw TLA text wrapped in Raw)."""
+    lines = ['---- MODULE %s ----' % name, 'EXTENDS %s' % ', '.join(extends)]
+    for k, v in defs.items():
+        lines.append('%s == %s' % (k, v.text if isinstance(v, Raw) else tla(v)))
+    lines.append('====')
+    work.write('%s.tla' % name, '\n'.join(lines) + '\n')
+
+
+class Raw(object):
+    def __init__(self, text):
+        self.text = text
